@@ -2,9 +2,11 @@
 package main
 
 import (
+	"bytes"
 	"fmt"
 	"go/types"
 	"math"
+	"net"
 	"net/netip"
 	"path"
 	"reflect"
@@ -105,6 +107,19 @@ var natives = map[string]any{
 	"regexp.QuoteMeta":       regexp.QuoteMeta,
 	"sort.SearchStrings":     sort.SearchStrings,
 	"net/netip.ParseAddr":    nil, // placeholder (struct results unsupported)
+	"net.SplitHostPort":      net.SplitHostPort,
+	"net.JoinHostPort":       net.JoinHostPort,
+	"internal/bytealg.IndexByteString":     strings.IndexByte,
+	"internal/bytealg.IndexByte":           bytes.IndexByte,
+	"internal/bytealg.LastIndexByteString": strings.LastIndexByte,
+	"internal/bytealg.LastIndexByte":       bytes.LastIndexByte,
+	"internal/bytealg.IndexString":         strings.Index,
+	"internal/bytealg.Index":               bytes.Index,
+	"internal/bytealg.Equal":               bytes.Equal,
+	"internal/bytealg.Compare":             bytes.Compare,
+	"internal/bytealg.CountString":         func(s string, c byte) int { return strings.Count(s, string([]byte{c})) },
+	"internal/bytealg.Count":               func(b []byte, c byte) int { return bytes.Count(b, []byte{c}) },
+	"internal/bytealg.MakeNoZero":          func(n int) []byte { return make([]byte, n) },
 }
 
 var _ = netip.ParseAddr
